@@ -177,7 +177,9 @@ class ndpoly(numpy.ndarray):  # pylint: disable=invalid-name
             keys = keys.view(f"U{exponents.shape[-1]}")
             keys = numpy.array(keys, dtype=f"U{exponents.shape[-1]}")
         else:
-            keys = numpy.full((1,), cls.KEY_OFFSET, dtype="uint32").view("U1")
+            width = max(exponents.shape[-1], 1) if exponents.ndim > 1 else 1
+            keys = numpy.full((width,), cls.KEY_OFFSET, dtype="uint32")
+            keys = keys.view(f"U{width}")
         assert len(keys.shape) == 1
 
         dtype = int if dtype is None else dtype
